@@ -302,7 +302,9 @@ class Optimizer(object):
             )
 
         # check if regressor
-        if not is_regressor(base_estimator) and base_estimator is not None:
+        # `None` stands for the "DUMMY" estimator (random sampling); recent versions of
+        # scikit-learn raise in `is_regressor(None)` so it must be tested first
+        if base_estimator is not None and not is_regressor(base_estimator):
             raise ValueError("%s has to be a regressor." % base_estimator)
 
         # treat per second acqusition function specially
